@@ -37,10 +37,14 @@ def run_property(pid, mod, tier, seed, t0):
     res = mod.explore(tier, seed, budget)          # -> dict(cases, mism, n_ops, extra)
     cases, mism = res["cases"], res["mism"]
     failures = []        # (case, failure-dict)
+    outside = 0
     for c in cases:
         for f in c.monitor:
             if f["property"] == pid:
-                failures.append((c, f))
+                if f.get("outside_quantifier"):
+                    outside += 1          # configuration the property does not quantify over
+                else:
+                    failures.append((c, f))
     for (c, i, line, exp, got) in mism:
         broken.append({"kind": "correspondence", "what": f"{c.name} op#{i} `{line[:60]}`", "diff": fw.first_diff(exp, got),
                        "case": c.meta})
@@ -51,7 +55,7 @@ def run_property(pid, mod, tier, seed, t0):
         searched = len(more)
         for c in more:
             for f in c.monitor:
-                if f["property"] == pid:
+                if f["property"] == pid and not f.get("outside_quantifier"):
                     failures.append((c, f))
     # 5. verdict
     violations = []
@@ -104,6 +108,7 @@ def run_property(pid, mod, tier, seed, t0):
         "model_transitions_compared": res["n_ops"],
         "correspondence_mismatches": len(mism),
         "monitor_failures": len(failures),
+        "failures_outside_the_quantifier": outside,
         "known_findings_seen": dict(known_hits),
         "input_distribution": dict(sorted(tags.items())),
         "samples": [{"case": c.meta, "first_ops": [l[:120] for l, _ in c.ops[:6]]} for c in cases[:2]],
